@@ -112,7 +112,8 @@ Definition const_go_eq (a b : const) : bool :=
   end.
 
 (* c.index[i]: the pool position under which an equal key was registered.  Only HKey constants are
-   ever looked up; const_go_eq is false on every pool entry that was not registered. *)
+   ever looked up, and const_go_eq is true only of pool entries that were registered, i.e. of HKey
+   entries (go_eq_only_keys in AssembleProofs.v), so the scan of the whole pool is the map lookup. *)
 Fixpoint pool_find (c : const) (pool : list const) (k : Z) : option Z :=
   match pool with
   | [] => None
